@@ -186,22 +186,27 @@ def orderedMapValidStream {α} (src : List α) (m : List Int) (inv : Int) (cs : 
 
 /-! ### the indexed-string stream -/
 
-/-- `calculate_chunk_decomposition(s_start, s_end, indices, value_chunk_size, sub_chunks)` -/
-def chunkDecomp (indices : List Int) (budget : Int) (s e : Nat) : Except Err (List (Nat × Nat)) :=
-  match indices[e]?, indices[s]? with
-  | some ie, some is_ =>
-    if _h : ie - is_ > budget ∧ e - s > 1 then
-      let mid := s + (e - s) / 2
-      match chunkDecomp indices budget s mid with
-      | .error er => .error er
-      | .ok l1 =>
-        match chunkDecomp indices budget mid e with
+/-- `calculate_chunk_decomposition(s_start, s_end, indices, value_chunk_size, sub_chunks)`: the recursion halves
+    `[s, e)`, so `e - s + 1` levels always suffice (`chunkDecompF_fuel`); structural recursion on that depth bound keeps
+    the model evaluable by the kernel -/
+def chunkDecompF (indices : List Int) (budget : Int) : Nat → Nat → Nat → Except Err (List (Nat × Nat))
+  | 0, _, _ => .error .outOfFuel
+  | f + 1, s, e =>
+    match indices[e]?, indices[s]? with
+    | some ie, some is_ =>
+      if ie - is_ > budget ∧ e - s > 1 then
+        let mid := s + (e - s) / 2
+        match chunkDecompF indices budget f s mid with
         | .error er => .error er
-        | .ok l2 => .ok (l1 ++ l2)
-    else .ok [(s, e)]
-  | _, _ => .error (.oob "indices[s]")
-termination_by e - s
-decreasing_by all_goals omega
+        | .ok l1 =>
+          match chunkDecompF indices budget f mid e with
+          | .error er => .error er
+          | .ok l2 => .ok (l1 ++ l2)
+      else .ok [(s, e)]
+    | _, _ => .error (.oob "indices[s]")
+
+def chunkDecomp (indices : List Int) (budget : Int) (s e : Nat) : Except Err (List (Nat × Nat)) :=
+  chunkDecompF indices budget (e - s + 1) s e
 
 /-- `for v in range(v, v+n): result_values[rv] = values[v]; rv += 1` — the bytes read -/
 def readRange {β} (values : List β) : Int → Nat → Except Err (List β)
